@@ -355,6 +355,10 @@ def path_key(path):
     return (kind, path.keybindings['Name'])
 
 
+class BodyError(Exception):
+    """Raised by the harness inside a `with manager:` block."""
+
+
 class Abort(Exception):
     """History cannot be continued soundly (model and reality diverged)."""
 
@@ -776,12 +780,35 @@ class History:
         what = 'manager %r %s' % (m.id, op)
         self.note(what)
         if exit_:
+            # the block is left normally or through an exception of the
+            # caller's code (which must come out unchanged)
+            boom = BodyError('raised inside the with block') \
+                if self.rng.random() < 0.45 else None
+            if boom is not None:
+                op = '__exit__'
+                what += ' (through an exception in the block)'
+                self.note(what)
+                self.ctx.count('__exit__.through-exception')
+
             def fn():
-                with m.obj as entered:
-                    if entered is not m.obj:
-                        raise AssertionError('__enter__ returned %r'
-                                             % entered)
+                try:
+                    with m.obj as entered:
+                        if entered is not m.obj:
+                            raise AssertionError('__enter__ returned %r'
+                                                 % entered)
+                        if boom is not None:
+                            raise boom
+                except BodyError as exc:
+                    if exc is not boom:
+                        raise
+                    return 'propagated'
+                return 'left-normally'
             st, res = self.call(what, fn)
+            if st == 'ok' and boom is not None and res != 'propagated':
+                self.ctx.violation(
+                    '__exit__.swallowed-exception',
+                    '%s: the exception raised inside the with block did not '
+                    'come out of it' % what, self.desc())
         else:
             st, res = self.call(what, m.obj.remove_all_servers)
         if st != 'ok':
